@@ -596,7 +596,7 @@ fault("c08-cap-dash-not-hidden", "C08", "R08e", (UMN, 'if capinfo[0].gettype() =
 fault("c08-cap-not-merged", "C08", "R08e", (UMN, "                    self.mergeentries(fileentry, capinfo[0])", "                    pass"))
 fault("c08-cap-ioerror-escapes", "C08", "R08e", (UMN, "        except IOError:  # Ignore no capfile situation\n            pass", "        except KeyError:\n            pass"))
 fault("c08-host-plus-literal", "C08", "R08f", (UMN, '                if line[5:] != "+":\n                    entry.sethost(line[5:])', "                entry.sethost(line[5:])"))
-fault("c08-port-plus-literal", "C08", "R08f", (UMN, '                if line[5:] != "+":\n                    try:  # Don\'t crash if we can\'t parse the number\n                        entry.setport(int(line[5:]))', '                if line[5:] != "-":\n                    try:  # Don\'t crash if we can\'t parse the number\n                        entry.setport(int(line[5:]))'))
+twin("c08-twin-port-plus-via-valueerror", "C08", (UMN, '                if line[5:] != "+":\n                    try:  # Don\'t crash if we can\'t parse the number\n                        entry.setport(int(line[5:]))', '                if line[5:] != "-":\n                    try:  # Don\'t crash if we can\'t parse the number\n                        entry.setport(int(line[5:]))'), note="Port=+ then reaches int(\"+\"), whose ValueError the same try swallows: the port stays unset, as documented")
 
 # --- content-derived partial operations (R03i), third-party parser exceptions (R03e)
 GMAP = "pygopherd/handlers/gophermap.py"
